@@ -67,7 +67,11 @@ def side_case(seed):
         else:
             deficient = False
     index = rng.randint(1, order - 1)
-    desc = dict(order=order, rows=rows, index=index, complex=cplx, deficient=deficient, cores=[lib.jsonable(c) for c in t.cores])
+    sc = 1.0
+    if rng.random() < 0.3:          # badly scaled trains: everything below is relative to the scale
+        sc = 10.0 ** rng.choice([-18, -12, -6, 6, 12])
+        t.cores[rng.randrange(order)] *= sc
+    desc = dict(order=order, rows=rows, index=index, complex=cplx, deficient=deficient, scale=sc, cores=[lib.jsonable(c) for c in t.cores])
     A = dense(t.cores).reshape(int(np.prod(rows[:index])), int(np.prod(rows[index:])))
     snap = snapshot([t])
     thr = 1e-10 if deficient else rng.choice([0, 0, 1e-12])
@@ -88,15 +92,15 @@ def side_case(seed):
         return 'left factor does not have orthonormal columns', desc
     if not close(Vm @ Vm.conj().T, np.eye(k), 1e-8):
         return 'right factor does not have orthonormal rows', desc
-    if not close(Um @ np.diag(s) @ Vm, A, 1e-8):
+    if not close(Um @ np.diag(s / sc) @ Vm, A / sc, 1e-8):
         return 'u * diag(s) * v does not reproduce the tensor', desc
     sref = np.linalg.svd(A, compute_uv=False)
     sref = sref[sref / sref[0] > (thr if thr else 0)] if thr else sref[:k]
-    if len(sref) < k or not close(np.sort(s)[::-1], sref[:k], 1e-8):
+    if len(sref) < k or not close(np.sort(s)[::-1] / sc, sref[:k] / sc, 1e-8):
         return 'singular values differ from those of the unfolding', desc
     P = dense(p.cores).reshape(A.shape)
-    Aplus = np.linalg.pinv(A, rcond=(thr if thr else 1e-15))
-    if not close(P, Aplus.conj().T, 1e-6):
+    Aplus = np.linalg.pinv(A / sc, rcond=(thr if thr else 1e-15))
+    if not close(P * sc, Aplus.conj().T, 1e-6):
         return 'pinv differs from the conjugate transpose of the Moore-Penrose pseudoinverse', desc
     return None, desc
 
